@@ -312,6 +312,30 @@ def one_attr_cases(rng):
     return out
 
 
+def value_pair_cases(rng):
+    """for every compared attribute: EVERY ordered pair (u, v), u != v, of a small alphabet of values that some notion of equality
+    other than `==` on the values would confuse (-1 / -2: equal CPython hashes; 0 / False, 1 / True; 255 / -1 and 256 / 0: equal
+    low bytes; 32767 / -32768 / 65535: 16-bit wraps), as the only difference between two adjacent frames u u v v u (seeded change
+    C09-m7 compared hashes of the attribute tuples)"""
+    out = []
+    ints = [-2, -1, 0, 1, 2, 255, 256, 257, -255, -256, 32767, -32768, 65535, 65536]
+    lines, expect = [], []
+    for a in ATTRS:
+        vals = [False, True] if a in ("editable", "moveable") else ints
+        base = rand_sprite(rng)
+        for u in vals:
+            for v in vals:
+                if u == v:
+                    continue
+                cu, cv = dict(base), dict(base)
+                cu[a], cv[a] = u, v
+                frames = [dict(main=None, palette=None, score=[c, base]) for c in (cu, cu, cv, cv, cu)]
+                lines.append(f"score toscore {table_txt(frames)}"); expect.append(canon(rle_expected(frames)))
+        out.append(Case(kind="value-pairs", spec=dict(attr=a, nvalues=len(vals)), lines=lines, expect=expect))
+        lines, expect = [], []
+    return out
+
+
 def pattern_cases(nch, nfr, alphabet, rng):
     """every table of nch channels x nfr frames over a small cell alphabet: _ (empty), A, B (= A with one attribute changed), C (another cast)"""
     A = rand_sprite(rng)
@@ -412,6 +436,7 @@ def pipeline_case(rng):
 def cases(rng, tier):
     n_tab, n_snd, n_rag = dict(quick=(2500, 400, 200), thorough=(50000, 4000, 2000), search=(20000, 2000, 0))[tier]
     out = one_attr_cases(rng)
+    out += value_pair_cases(rng)
     out += pattern_cases(1, 6, "_AB", rng)                         # 729 columns
     out += pattern_cases(2, 2, "_ABC", rng)                        # 256 tables
     if tier != "quick":
